@@ -301,7 +301,7 @@ def run(chk, replay=None):
 
     chk.coverage['correspondence']['samples_of_disagreement'] = disagreements[:5]
     chk.assumptions.append('noise superposition (power addition across noise identifiers) is not exercised by this check')
-    if broken and n_cex == 0 and not chk.known_seen:
+    if broken and n_cex == 0:
         for b in broken[:20]:
             chk.unexplained('broken-obligation', b, chk.coverage.get('build_log_tail', '')[-600:])
     if disagreements and n_cex == 0:
